@@ -14,7 +14,12 @@ probe 3: unknown at 120 s), so every lemma carries its CERTIFICATE in `steps`:
   * `identity ...` - a pure ring identity, proved without hypotheses by polynomial normalisation
                      (goal - sum m_ij (G_ij - delta_ij) == 0;  det[Ru Rv Rw] == det R det[u v w];  Binet-Cauchy; ...);
   * `use mul_zero(m, G_ij - delta_ij)` / `use mul_one(x, det R)` / `use mul_eq(..)` - one instance of a tiny algebra
-    lemma per certificate multiplier m; after that the goal is LINEAR over the monomials.
+    lemma per certificate multiplier m; after that the goal is LINEAR over the monomials;
+  * `use lin_zero6 / lin_sum3 / lin_diff2 / trans3 / trans4 (..)` - that linear combination itself, as a lemma over abstract
+    reals, so that every single obligation is a ring identity or literally an established fact (cvc5 finds the linear
+    combination among expanded polynomials by itself, z3's nlsat does not - and z3 is even sensitive to the orientation of an
+    equation it is given as a hypothesis, hence the care about `a == b` vs `b == a` in rot_cross_k).
+  Result: 334 obligations, all discharged by z3, slowest about 0.1 s.
 Float rounding, the 1e-6 margins of the property, the enumeration order of the KD-tree contact set and PDB-vs-mmCIF
 agreement are not lemmas of this file (see props/C05.py EXPLANATION).
 
@@ -146,6 +151,7 @@ LEMMAS = {
                  "requires": ["x == z1 + z2 + z3", "y == w1 + w2 + w3", "z1 == w1", "z2 == w2", "z3 == w3"], "ensures": ["x == y"]},
     "lin_diff2": {"kind": "smt", "params": ["x", "y", "z1", "z2", "w1", "w2"], "shapes": R * 6,
                   "requires": ["x == z1 - z2", "y == w1 - w2", "z1 == w1", "z2 == w2"], "ensures": ["x == y"]},
+    "trans3": {"kind": "smt", "params": ["a", "b", "c"], "shapes": R * 3, "requires": ["a == b", "b == c"], "ensures": ["a == c"]},
     "trans4": {"kind": "smt", "params": ["a", "b", "c", "d"], "shapes": R * 4, "requires": ["a == b", "b == c", "c == d"],
                "ensures": ["a == d"]},
 }
@@ -203,16 +209,19 @@ LEMMAS["rot_cofactor"] = {"kind": "smt", "params": ROT, "shapes": V(3), "require
                           "steps": _cof_steps, "ensures": _cof_ens}
 
 # cross products transform covariantly under proper rotations: (R u) x (R v) == R (u x v)
-_cross_steps = [f"use rot_cofactor({A3})", f"use cross_cofactor({A3}, u, v)"]
+# (one lemma per component: component j of (R u) x (R v) is cof_j . (u x v) by cross_cofactor, and cof_j == row_j)
 for _j, (_row, _cof) in enumerate(_ROWS):
-    for _k in range(3):
-        _cross_steps.append(f"use mul_eq(cross3(u, v)[{_k}], {_cof}[{_k}], {_row}[{_k}])")
-    _cross_steps.append(f"use lin_sum3(cross3(rot({A3}, u), rot({A3}, v))[{_j}], rot({A3}, cross3(u, v))[{_j}], "
-                        + ", ".join(f"cross3(u, v)[{_k}] * {_cof}[{_k}]" for _k in range(3)) + ", "
-                        + ", ".join(f"cross3(u, v)[{_k}] * {_row}[{_k}]" for _k in range(3)) + ")")
+    LEMMAS[f"rot_cross_{_j}"] = {
+        "kind": "smt", "params": ROT + ["u", "v"], "shapes": V(5), "requires": ORTH + DET1,
+        "steps": [f"use rot_cofactor({A3})", f"use cross_cofactor({A3}, u, v)"]
+                 + [f"use mul_eq(cross3(u, v)[{_k}], {_row}[{_k}], {_cof}[{_k}])" for _k in range(3)]
+                 + [f"use lin_sum3(rot({A3}, cross3(u, v))[{_j}], cross3(rot({A3}, u), rot({A3}, v))[{_j}], "
+                    + ", ".join(f"cross3(u, v)[{_k}] * {_row}[{_k}]" for _k in range(3)) + ", "
+                    + ", ".join(f"cross3(u, v)[{_k}] * {_cof}[{_k}]" for _k in range(3)) + ")"],
+        "ensures": [f"rot({A3}, cross3(u, v))[{_j}] == cross3(rot({A3}, u), rot({A3}, v))[{_j}]"]}
 LEMMAS["rot_cross"] = {"kind": "smt", "params": ROT + ["u", "v"], "shapes": V(5), "requires": ORTH + DET1,
-                       "steps": _cross_steps,
-                       "ensures": comps(f"cross3(rot({A3}, u), rot({A3}, v))", f"rot({A3}, cross3(u, v))")}
+                       "steps": [f"use rot_cross_{_j}({A3}, u, v)" for _j in range(3)],
+                       "ensures": comps(f"rot({A3}, cross3(u, v))", f"cross3(rot({A3}, u), rot({A3}, v))")}
 
 # ---- corollaries for rigid motions p -> R p + t, stated for the expressions the annotation specs use -------------------
 RIG = ROT + ["t"]
@@ -220,7 +229,8 @@ RIG = ROT + ["t"]
 LEMMAS["inv_dot_diff"] = {
     "kind": "smt", "params": RIG + ["p", "q", "r", "s"], "shapes": V(8), "requires": ORTH,
     "steps": [f"identity dot3({M('p')} - {M('q')}, {M('r')} - {M('s')}) == dot3(rot({A3}, p - q), rot({A3}, r - s))",
-              f"use rot_dot({A3}, p - q, r - s)"],
+              f"use rot_dot({A3}, p - q, r - s)",
+              f"use trans3(dot3({M('p')} - {M('q')}, {M('r')} - {M('s')}), dot3(rot({A3}, p - q), rot({A3}, r - s)), dot3(p - q, r - s))"],
     "ensures": [f"dot3({M('p')} - {M('q')}, {M('r')} - {M('s')}) == dot3(p - q, r - s)"]}
 # squared distance (hydrogen-bond / contact / centroid distance tests)
 LEMMAS["inv_sqdist"] = {
@@ -240,7 +250,9 @@ LEMMAS["inv_volume"] = {
     "kind": "smt", "params": RIG + ["p1", "q1", "p2", "q2", "p3", "q3"], "shapes": V(10), "requires": DET1,
     "steps": [f"identity det3({M('p1')} - {M('q1')}, {M('p2')} - {M('q2')}, {M('p3')} - {M('q3')}) == "
               f"det3(rot({A3}, p1 - q1), rot({A3}, p2 - q2), rot({A3}, p3 - q3))",
-              f"use rot_det({A3}, p1 - q1, p2 - q2, p3 - q3)"],
+              f"use rot_det({A3}, p1 - q1, p2 - q2, p3 - q3)",
+              f"use trans3(det3({M('p1')} - {M('q1')}, {M('p2')} - {M('q2')}, {M('p3')} - {M('q3')}), "
+              f"det3(rot({A3}, p1 - q1), rot({A3}, p2 - q2), rot({A3}, p3 - q3)), det3(p1 - q1, p2 - q2, p3 - q3))"],
     "ensures": [f"det3({M('p1')} - {M('q1')}, {M('p2')} - {M('q2')}, {M('p3')} - {M('q3')}) == det3(p1 - q1, p2 - q2, p3 - q3)"]}
 
 
@@ -338,6 +350,17 @@ LEMMAS["affine_renumbering_increasing"] = {
     "kind": "smt", "params": ["n1", "n2", "mul", "off"], "shapes": ["int"] * 4, "requires": ["mul >= 1"],
     "ensures": ["(n1 < n2) == (mul * n1 + off < mul * n2 + off)"]}
 
+# ... hence with sorting: ks (keys) and fs (their images, same positions) - any two adjacent positions compare the same way, so
+# a permutation sorts ks iff it sorts fs (apply the lemma to the permuted lists), i.e. sorted(map(f, L)) == map(f, sorted(L))
+_PAIR_ISO = " and ".join(f"(ks[i][{c}] < ks[j][{c}]) == (fs[i][{c}] < fs[j][{c}])" for c in range(3))
+_K = lambda l, i: f"{l}[{i}][0], {l}[{i}][1], {l}[{i}][2]"
+LEMMAS["rename_sorted"] = {
+    "kind": "smt", "params": ["ks", "fs"], "shapes": ["list[tuple[str,int,str]]"] * 2,
+    "requires": ["len(ks) == len(fs)",
+                 f"forall(lambda i: forall(lambda j: implies(0 <= i and i < len(ks) and 0 <= j and j < len(ks), {_PAIR_ISO})))"],
+    "ensures": [f"forall(lambda i: implies(0 <= i and i + 1 < len(ks), lex_lt({_K('ks', 'i')}, {_K('ks', 'i + 1')}) == lex_lt({_K('fs', 'i')}, {_K('fs', 'i + 1')})))",
+                f"forall(lambda i: implies(0 <= i and i + 1 < len(ks), lex_lt({_K('ks', 'i + 1')}, {_K('ks', 'i')}) == lex_lt({_K('fs', 'i + 1')}, {_K('fs', 'i')})))"]}
+
 SMT_LEMMAS = [k for k, v in LEMMAS.items() if v["kind"] == "smt"]
 
 
@@ -353,7 +376,9 @@ FALSE_SIBLINGS = {
     # a reflection (det R = -1) does NOT keep oriented volumes / the torsion's sign / cross-product covariance
     "false_volume_reflection": _variant("rot_det", requires=ORTH + REFLECT, steps=[]),
     "false_cross_reflection": _variant("rot_cross", requires=ORTH + REFLECT, steps=[]),
-    "false_cofactor_reflection": _variant("rot_cofactor", requires=ORTH + REFLECT, steps=[]),
+    "false_cofactor_reflection": _variant("rot_cofactor", requires=ORTH + REFLECT, steps=[], ensures=_cof_ens[6:]),
+    # without the sign condition a square has two roots (norm is the NON-NEGATIVE one)
+    "false_sqrt_no_sign": _variant("sqrt_unique", requires=["a * a == b * b"]),
     "false_torsion_reflection": _variant("inv_torsion", requires=ORTH + REFLECT, steps=[],
                                          ensures=[f"triple({_P4}) == triple(p1, p2, p3, p4)"]),
     # one orthogonality equation dropped (a shear / scaling is not an isometry)
@@ -396,16 +421,20 @@ def run_false_siblings(z3_ms=20000, cvc5_s=20):
         eng = Engine("rnapolis.tertiary", side)
         obls = eng.verify_lemma(name)
         res = discharge(obls, opts={"z3_ms": z3_ms, "cvc5_s": cvc5_s})
-        out.append((name, [(o.name, r["result"], r["ms"]) for o, r in zip(obls, res)]))
+        out.append((name, [(o.name, r["result"], r["ms"]) for o, r in zip(obls, res)],
+                    next((r.get("model") for r in res if r["result"] == "sat" and r.get("model")), None)))
     return out
 
 
 if __name__ == "__main__":
     bad = 0
-    for name, rs in run_false_siblings():
+    import sys
+    for name, rs, model in run_false_siblings():
         refuted = any(r == "sat" for _, r, _ in rs)
         proved = all(r == "unsat" for _, r, _ in rs)
         bad += proved or not refuted
         print(f"{name}: {'REFUTED (model)' if refuted else 'PROVED?!' if proved else 'not proved, no model'}  "
               + ", ".join(f"{n.split('#')[1]}={r}/{ms}ms" for n, r, ms in rs))
+        if "-v" in sys.argv and model:
+            print("    model: " + ", ".join(f"{k}={v}" for k, v in sorted(model.items()) if not k.startswith(("inv!", "norm!")))[:400])
     raise SystemExit(1 if bad else 0)
